@@ -343,3 +343,130 @@ PRIO_RULE = ("driver scripts executed inside a testing/synctest bubble against t
              "buffered / unbuffered / mixed inputs; operations put, close, take, release (k-th held item), optionally one injected divider fault; "
              "each operation optionally followed by a settle (200 fake ns); styles mixed, saturated, sparse, single, unbuffered, closing; a finale "
              "closes everything and takes/releases until termination; non-trivial = at least two items written and H accepted")
+
+
+# ------------------------------------------------------------------------------------------------ v1 (family 8)
+def enc_prio1(kind, H, ocap, cfg, ops, fixed=1):
+    pc, os_ = [], []
+    for p, ch in cfg:
+        pc += [p, ch]
+    for code, a, b, stl in ops:
+        os_ += [code, a, b, 1 if stl else 0]
+    return [8, kind, H, FUEL, ocap, fixed, len(pc)] + pc + [len(os_)] + os_
+
+
+def gen_prio1_scenario(rng, tier, style=None, fault=False, stop=None):
+    """stop: None | 'stop' | 'cancel' -- injected at a random position (C16)"""
+    pool = [1, 2, 3, 4, 5, 7, 10, 20, 70]
+    kind = rng.randrange(2)
+    style = style or rng.choice(["plain", "addremove", "addremove", "unbuffered"])
+    n0 = rng.choice([0, 1, 2, 3])
+    ps0 = rng.sample(pool, n0)
+    next_ch = [0]
+    next_uch = [1000]
+
+    def new_chan():
+        if style == "unbuffered" and rng.random() < 0.6 or rng.random() < 0.1:
+            next_uch[0] += 1
+            return next_uch[0] - 1
+        next_ch[0] += 1
+        return next_ch[0] - 1
+
+    cfg = [(p, new_chan()) for p in ps0]
+    chan_of = dict(cfg)              # what the generator believes is registered
+    had = dict(cfg)
+    all_chans = [ch for _, ch in cfg]
+    open_chans = set(all_chans)
+    union = set(ps0)
+    H = rng.choice([1, 2, 3, 4, 6, 8, 12, 20])
+    ocap = rng.choice([1, 2, 4, max(H // 2, 1)])
+    ops = []
+    nput = 0
+    nops = rng.choice([10, 25, 40]) if tier == "quick" else rng.choice([30, 60, 100])
+    for _ in range(nops):
+        r = rng.random()
+        if r < 0.30 and open_chans:
+            ch = rng.choice(sorted(open_chans))
+            for _ in range(rng.choice([1, 1, 2, 3])):
+                ops.append((1, ch, 0, True))
+                nput += 1
+        elif r < 0.50:
+            for _ in range(rng.choice([1, 2, 3])):
+                ops.append((3, 0, 0, True))
+        elif r < 0.70:
+            for _ in range(rng.choice([1, 2, 3])):
+                ops.append((4, rng.randrange(0, 8), 0, True))
+        elif r < 0.85 and style != "plain":
+            if rng.random() < 0.6 or not chan_of:
+                p = rng.choice(pool)
+                # a new channel, or the one this priority had before (never one channel under two priorities)
+                ch = had.get(p) if (p in had and p not in chan_of and rng.random() < 0.4) else new_chan()
+                had[p] = ch
+                if ch not in all_chans:
+                    all_chans.append(ch)
+                    open_chans.add(ch)
+                chan_of[p] = ch
+                union.add(p)
+                ops.append((8, ch, p, True))
+            else:
+                p = rng.choice(sorted(chan_of) + [rng.choice(pool)])
+                chan_of.pop(p, None)
+                ops.append((9, p, 0, True))
+        elif r < 0.92 and open_chans:
+            ch = rng.choice(sorted(open_chans))
+            open_chans.discard(ch)
+            ops.append((2, ch, 0, True))
+    if fault:
+        ops.insert(rng.randrange(0, len(ops) + 1), (rng.choice([5, 5, 7]), rng.choice([1, 2, -1, H]), 0, True))
+    if stop:
+        ops.insert(rng.randrange(0, len(ops) + 1), (11 if stop == "stop" else 12, 0, 0, True))
+        ops.append((1, all_chans[0], 0, True) if all_chans and all_chans[0] in open_chans else (3, 0, 0, True))
+        ops.append((3, 0, 0, True))
+    else:
+        # finale: close every channel, graceful stop, take/release until everything is through
+        for ch in sorted(open_chans):
+            ops.append((2, ch, 0, True))
+        ops.append((10, 0, 0, True))
+        for _ in range(nput + 3):
+            ops.append((3, 0, 0, True))
+            ops.append((4, 0, 0, True))
+        ops.append((3, 0, 0, True))
+    enc = enc_prio1(kind, H, ocap, cfg, ops)
+    meta = {"divider": ["Fair", "Rate"][kind], "H": H, "ocap": ocap, "cfg": cfg, "ops": ops, "style": style, "fault": fault,
+            "stop": stop, "nput": nput}
+    return Scenario(enc, style + ("+fault" if fault else "") + ("+" + stop if stop else ""), meta, nontrivial=nput >= 2, version="v1")
+
+
+class Prio1Trace:
+    def __init__(self, vals, nops):
+        vals = list(vals)
+        self.extra = None
+        self.noterm = False
+        if "no-termination" in vals:
+            self.noterm = True
+            vals.remove("no-termination")
+        if "extra" in vals:
+            k = vals.index("extra")
+            self.extra = [int(x) for x in vals[k + 1:k + 7]]
+            vals = vals[:k]
+        v = [int(x) for x in vals]
+        self.error = None
+        self.ops = []
+        if v[0] != 0:
+            self.error = -v[0]
+            self.done, self.err = None, None
+            return
+        pos = 1
+        for _ in range(nops):
+            tp, tx, olen, pend, done, k = v[pos:pos + 6]
+            pos += 6
+            calls = set()
+            for _ in range(k):
+                dividend, n = v[pos], v[pos + 1]
+                calls.add((dividend, tuple(v[pos + 2:pos + 2 + n])))
+                pos += 2 + n
+            nch = v[pos]
+            consumed = tuple((v[pos + 1 + 2 * j], v[pos + 2 + 2 * j]) for j in range(nch))
+            pos += 1 + 2 * nch
+            self.ops.append((tp, tx, olen, pend, done, consumed, calls))
+        self.done, self.err = v[pos], v[pos + 1]
